@@ -499,6 +499,281 @@ theorem good_dropH (inv : Inv sz s) (rel : Rel s t) (h : Nat) : Good sz s t (.dr
   · refine good_of_bad ?_ (by simp only [specStep, vec_bad rel hs]) inv rel
     simp only [stepE, slot_bad hs]
 
+
+theorem setAlloc_comm (s : St) {x y : Nat} (h : x ≠ y) (v w : Option RawList) :
+    (s.setAlloc x v).setAlloc y w = (s.setAlloc y w).setAlloc x v := by
+  unfold St.setAlloc
+  simp only [List.set_comm _ _ h]
+
+/-- `==` with lock targets `[self, other]`, compared guards `(0, 1)`, shortcut first:
+    never dead-locks, leaves the store as it was, answers list equality -/
+theorem eqWith_ok (inv : Inv sz s) {x y : Nat} {lx ly : RawList}
+    (hx : s.getAlloc x = some lx) (hy : s.getAlloc y = some ly)
+    (cmp : RawList → RawList → E Bool)
+    (hcmp : cmp { lx with locked := true } { ly with locked := true } = .ok (decide (lx.elems = ly.elems))) :
+    eqWith true [.self_, .other] (0, 1) cmp s x y = .ok (.bool (decide (lx.elems = ly.elems)), s) := by
+  unfold eqWith
+  by_cases hxy : x = y
+  · subst hxy
+    rw [hx] at hy; injection hy with hy; subst hy
+    simp
+  · have hne : (x == y) = false := by simp [hxy]
+    simp only [hne, Bool.and_false, Bool.false_eq_true, if_false, List.map, resolve]
+    have hkx := (inv.raw x lx hx).2.1
+    have hky := (inv.raw y ly hy).2.1
+    -- lock x, lock y
+    have a1 : acquire s x = .ok (s.setAlloc x (some { lx with locked := true }), lx) := acquire_live hx hkx
+    have g1 : (s.setAlloc x (some { lx with locked := true })).getAlloc y = some ly := by
+      rw [getAlloc_setAlloc_live hx, if_neg hxy]; exact hy
+    have a2 := acquire_live g1 hky
+    simp only [acquireAll, a1, a2]
+    -- the two guards
+    have g2x : ((s.setAlloc x (some { lx with locked := true })).setAlloc y (some { ly with locked := true })).getAlloc x
+        = some { lx with locked := true } := by
+      rw [getAlloc_setAlloc_live g1, if_neg (Ne.symm hxy), getAlloc_setAlloc_live hx, if_pos rfl]
+    have g2y : ((s.setAlloc x (some { lx with locked := true })).setAlloc y (some { ly with locked := true })).getAlloc y
+        = some { ly with locked := true } := by
+      rw [getAlloc_setAlloc_live g1, if_pos rfl]
+    simp only [List.getElem?_cons_zero, List.getElem?_cons_succ, g2x, g2y, hcmp, List.reverse_cons,
+      List.reverse_nil, List.nil_append, List.cons_append]
+    -- unlock y, unlock x
+    have u1 := unlockAt_live g2y
+    have g3x : (((s.setAlloc x (some { lx with locked := true })).setAlloc y (some { ly with locked := true })).setAlloc y
+        (some { ({ ly with locked := true } : RawList) with locked := false })).getAlloc x = some { lx with locked := true } := by
+      rw [getAlloc_setAlloc_live g2y, if_neg (Ne.symm hxy)]; exact g2x
+    have u2 := unlockAt_live g3x
+    simp only [unlockAll, u1, u2]
+    -- the store is back where it was
+    have e1 : ({ ({ lx with locked := true } : RawList) with locked := false } : RawList) = lx := by
+      cases lx; simp at hkx; subst hkx; rfl
+    have e2 : ({ ({ ly with locked := true } : RawList) with locked := false } : RawList) = ly := by
+      cases ly; simp at hky; subst hky; rfl
+    rw [e1, e2, setAlloc_setAlloc, setAlloc_comm _ (Ne.symm hxy), setAlloc_setAlloc, setAlloc_self hx,
+      setAlloc_self hy]
+
+theorem typedEq_def : typedEq = eqWith true [.self_, .other] (0, 1) rawEqTyped := rfl
+theorem erasedEq_def : erasedEq = eqWith true [.self_, .other] (0, 1) rawEqErased := rfl
+
+theorem good_eq (inv : Inv sz s) (rel : Rel s t) (a b : Nat) (typed : Bool) :
+    Good sz s t (.eq a b typed) := by
+  rcases slot_dec s a with ⟨x, hsa⟩ | hsa
+  · rcases slot_dec s b with ⟨y, hsb⟩ | hsb
+    · have ⟨lx, hx⟩ := inv.slot a x hsa
+      have ⟨ly, hy⟩ := inv.slot b y hsb
+      have wx := (inv.raw x lx hx).1.wf
+      have wy := (inv.raw y ly hy).1.wf
+      refine good_of_ok (o := .bool (decide (lx.elems = ly.elems))) (s' := s) ?_ ?_ inv ?_
+      · simp only [stepE, slot_ok hsa, slot_ok hsb]
+        cases typed with
+        | true =>
+          simp only [if_true, typedEq_def]
+          exact eqWith_ok inv hx hy _ (rawEqTyped_eq (a := { lx with locked := true }) (b := { ly with locked := true }) wx wy)
+        | false =>
+          simp only [Bool.false_eq_true, if_false, erasedEq_def]
+          exact eqWith_ok inv hx hy _ (rawEqErased_eq (a := { lx with locked := true }) (b := { ly with locked := true }) wx wy)
+      · simp only [specStep, vec_ok rel hsa hx, vec_ok rel hsb hy, eraseCap]
+      · simp only [specStep, vec_ok rel hsa hx, vec_ok rel hsb hy]; exact rel
+    · refine good_of_bad ?_ ?_ inv rel
+      · simp only [stepE, slot_ok hsa, slot_bad hsb]
+      · have ⟨lx, hx⟩ := inv.slot a x hsa
+        simp only [specStep, vec_ok rel hsa hx, vec_bad rel hsb]
+  · refine good_of_bad ?_ ?_ inv rel
+    · simp only [stepE, slot_bad hsa]
+    · simp only [specStep, vec_bad rel hsa]
+
+
+theorem set_self_of_getElem? {α : Type} {xs : List α} {i : Nat} {v : α} (h : xs[i]? = some v) :
+    xs.set i v = xs := by
+  apply List.ext_getElem?
+  intro j
+  rw [List.getElem?_set]
+  by_cases hij : i = j
+  · subst hij
+    have hlt : i < xs.length := by
+      by_cases hl : i < xs.length
+      · exact hl
+      · rw [List.getElem?_eq_none (by omega)] at h; cases h
+    rw [List.getElem?_eq_getElem hlt] at h
+    injection h with h
+    simp [hlt, h]
+  · simp [hij]
+
+/-- the nine statements of `concat` leave exactly one new allocation behind -/
+theorem concat_allocs (S : List (Option RawList)) (x y : Nat)
+    (Lx lx Ly ly l0 L0 ln1 ln2 ln : Option RawList)
+    (hx : x < S.length) (hy : y < S.length) (gx : S[x]? = some lx) (gy : S[y]? = some ly) :
+    (((((((((S.set x Lx) ++ [l0]).set S.length L0).set S.length ln1).set x lx).set y Ly).set
+      S.length ln2).set y ly).set S.length ln) = S ++ [ln] := by
+  simp [List.set_append, hx, hy]
+  by_cases hxy : x = y
+  · subst hxy
+    simp [set_self_of_getElem? gy]
+  · rw [set_self_of_getElem? gx, set_self_of_getElem? gy]
+
+theorem concatRun_cons_ok {x y : Nat} {c c1 : St × Option Nat} {st : CStep} {rest : List CStep}
+    (h : concatStep sz x y c st = .ok c1) :
+    concatRun sz x y c (st :: rest) = concatRun sz x y c1 rest := by
+  simp only [concatRun, h]
+
+theorem concatRun_cons_err {x y : Nat} {c : St × Option Nat} {st : CStep} {rest : List CStep} {f : Fault}
+    (h : concatStep sz x y c st = .error f) :
+    concatRun sz x y c (st :: rest) = .error f := by
+  simp only [concatRun, h]
+
+theorem RawOk_locked {l : RawList} (ok : RawOk sz l) (b : Bool) : RawOk sz { l with locked := b } :=
+  ⟨ok.wf, ok.le, ok.bound, ok.zst, ok.shape⟩
+
+theorem concatSteps_def : Gen.ListLocks.concatSteps =
+    [.lock .self_, .allocNew, .lockNew, .extendFrom .self_, .unlock .self_, .lock .other,
+     .extendFrom .other, .unlock .other, .unlockNew] := rfl
+
+/-- `ErasedList::concat` as written (generated statement order): no dead-lock
+    for any pair of operands (also `l.concat(&l)`), operands restored, the new
+    list holds `self ++ other` -/
+theorem concat_ok (inv : Inv sz s) {x y : Nat} {lx ly : RawList}
+    (hx : s.getAlloc x = some lx) (hy : s.getAlloc y = some ly) :
+    concatRun sz x y (s, none) Gen.ListLocks.concatSteps = .error .panic ∨
+    ∃ ln, concatRun sz x y (s, none) Gen.ListLocks.concatSteps =
+        .ok ({ (s.pushAlloc ln) with live := s.live + lx.len + ly.len }, some s.allocs.length) ∧
+      ln.elems = lx.elems ++ ly.elems ∧ ln.len = lx.len + ly.len ∧ RawOk sz ln ∧
+      ln.locked = false ∧ ln.rc = 1 := by
+  rw [concatSteps_def]
+  have ⟨hxn, gx⟩ := getAlloc_some_lt hx
+  have ⟨hyn, gy⟩ := getAlloc_some_lt hy
+  have ⟨okx, kx, _, _⟩ := inv.raw x lx hx
+  have ⟨oky, ky, _, _⟩ := inv.raw y ly hy
+  have ⟨l0, h0, e01, e02, e03, e04, ok0⟩ := newRaw_ok sz
+  have elx : ({ ({ lx with locked := true } : RawList) with locked := false } : RawList) = lx := by
+    cases lx; simp at kx; subst kx; rfl
+  have ely : ({ ({ ly with locked := true } : RawList) with locked := false } : RawList) = ly := by
+    cases ly; simp at ky; subst ky; rfl
+  -- 1. lock self
+  obtain ⟨S1, hS1⟩ : ∃ S1, S1 = s.setAlloc x (some { lx with locked := true }) := ⟨_, rfl⟩
+  have st1 : concatStep sz x y (s, none) (.lock .self_) = .ok (S1, none) := by
+    simp only [concatStep, resolve, acquire_live hx kx, hS1]
+  have g1 : ∀ b, S1.getAlloc b = if x = b then some { lx with locked := true } else s.getAlloc b := by
+    intro b; rw [hS1]; exact getAlloc_setAlloc_live hx _ b
+  have len1 : S1.allocs.length = s.allocs.length := by rw [hS1]; simp [St.setAlloc]
+  rw [concatRun_cons_ok st1]
+  -- 2. new list
+  obtain ⟨S2, hS2⟩ : ∃ S2, S2 = S1.pushAlloc l0 := ⟨_, rfl⟩
+  have st2 : concatStep sz x y (S1, none) .allocNew = .ok (S2, some s.allocs.length) := by
+    simp only [concatStep, h0, len1, hS2]
+  have g2 : ∀ b, S2.getAlloc b = if b = s.allocs.length then some l0 else S1.getAlloc b := by
+    intro b; rw [hS2, getAlloc_pushAlloc, len1]
+  rw [concatRun_cons_ok st2]
+  -- 3. lock the new list
+  have g2n : S2.getAlloc s.allocs.length = some l0 := by rw [g2, if_pos rfl]
+  obtain ⟨S3, hS3⟩ : ∃ S3, S3 = S2.setAlloc s.allocs.length (some { l0 with locked := true }) := ⟨_, rfl⟩
+  have st3 : concatStep sz x y (S2, some s.allocs.length) .lockNew = .ok (S3, some s.allocs.length) := by
+    simp only [concatStep, acquire_live g2n e03, hS3]
+  have g3 : ∀ b, S3.getAlloc b = if s.allocs.length = b then some { l0 with locked := true } else S2.getAlloc b := by
+    intro b; rw [hS3]; exact getAlloc_setAlloc_live g2n _ b
+  rw [concatRun_cons_ok st3]
+  -- 4. extend from self
+  have hnx : s.allocs.length ≠ x := by omega
+  have hny : s.allocs.length ≠ y := by omega
+  have g3n : S3.getAlloc s.allocs.length = some { l0 with locked := true } := by rw [g3, if_pos rfl]
+  have g3x : S3.getAlloc x = some { lx with locked := true } := by
+    rw [g3, if_neg hnx, g2, if_neg (Ne.symm hnx), g1, if_pos rfl]
+  cases he1 : rawExtend sz { l0 with locked := true } { lx with locked := true } with
+  | error f =>
+    left
+    have hf := (rawExtend_error he1 (RawOk_locked ok0 true) (RawOk_locked okx true)).1
+    subst hf
+    apply concatRun_cons_err
+    simp only [concatStep, resolve, g3n, g3x, he1]
+    simp
+  | ok ln1 =>
+    have ⟨x1, x2, x3, x4, _, ok1⟩ := rawExtend_ok he1 (RawOk_locked ok0 true) (RawOk_locked okx true)
+    obtain ⟨S4, hS4⟩ : ∃ S4, S4 = ({ (S3.setAlloc s.allocs.length (some ln1)) with live := S3.live + lx.len } : St) := ⟨_, rfl⟩
+    have st4 : concatStep sz x y (S3, some s.allocs.length) (.extendFrom .self_) = .ok (S4, some s.allocs.length) := by
+      simp only [concatStep, resolve, g3n, g3x, he1, hS4]
+      simp
+    have g4 : ∀ b, S4.getAlloc b = if s.allocs.length = b then some ln1 else S3.getAlloc b := by
+      intro b; rw [hS4]; exact getAlloc_setAlloc_live g3n _ b
+    rw [concatRun_cons_ok st4]
+    -- 5. drop(a)
+    have g4x : S4.getAlloc x = some { lx with locked := true } := by rw [g4, if_neg hnx]; exact g3x
+    obtain ⟨S5, hS5⟩ : ∃ S5, S5 = S4.setAlloc x (some lx) := ⟨_, rfl⟩
+    have st5 : concatStep sz x y (S4, some s.allocs.length) (.unlock .self_) = .ok (S5, some s.allocs.length) := by
+      simp only [concatStep, resolve, unlockAt_live g4x, elx, hS5]
+    have g5 : ∀ b, S5.getAlloc b = if x = b then some lx else S4.getAlloc b := by
+      intro b; rw [hS5]; exact getAlloc_setAlloc_live g4x _ b
+    rw [concatRun_cons_ok st5]
+    -- 6. lock other
+    have g5y : S5.getAlloc y = some ly := by
+      rw [g5]
+      by_cases hxy : x = y
+      · rw [if_pos hxy]; subst hxy; rw [hx] at hy; exact hy
+      · rw [if_neg hxy, g4, if_neg hny, g3, if_neg hny, g2, if_neg (Ne.symm hny), g1, if_neg hxy]; exact hy
+    obtain ⟨S6, hS6⟩ : ∃ S6, S6 = S5.setAlloc y (some { ly with locked := true }) := ⟨_, rfl⟩
+    have st6 : concatStep sz x y (S5, some s.allocs.length) (.lock .other) = .ok (S6, some s.allocs.length) := by
+      simp only [concatStep, resolve, acquire_live g5y ky, hS6]
+    have g6 : ∀ b, S6.getAlloc b = if y = b then some { ly with locked := true } else S5.getAlloc b := by
+      intro b; rw [hS6]; exact getAlloc_setAlloc_live g5y _ b
+    rw [concatRun_cons_ok st6]
+    -- 7. extend from other
+    have g6n : S6.getAlloc s.allocs.length = some ln1 := by
+      rw [g6, if_neg (Ne.symm hny), g5, if_neg (Ne.symm hnx), g4, if_pos rfl]
+    have g6y : S6.getAlloc y = some { ly with locked := true } := by rw [g6, if_pos rfl]
+    have k1 : ln1.locked = true := x3
+    cases he2 : rawExtend sz ln1 { ly with locked := true } with
+    | error f =>
+      left
+      have hf := (rawExtend_error he2 ok1 (RawOk_locked oky true)).1
+      subst hf
+      apply concatRun_cons_err
+      simp only [concatStep, resolve, g6n, g6y, he2]
+      simp [k1]
+    | ok ln2 =>
+      have ⟨y1, y2, y3, y4, _, ok2⟩ := rawExtend_ok he2 ok1 (RawOk_locked oky true)
+      obtain ⟨S7, hS7⟩ : ∃ S7, S7 = ({ (S6.setAlloc s.allocs.length (some ln2)) with live := S6.live + ly.len } : St) := ⟨_, rfl⟩
+      have st7 : concatStep sz x y (S6, some s.allocs.length) (.extendFrom .other) = .ok (S7, some s.allocs.length) := by
+        simp only [concatStep, resolve, g6n, g6y, he2, hS7]
+        simp [k1]
+      have g7 : ∀ b, S7.getAlloc b = if s.allocs.length = b then some ln2 else S6.getAlloc b := by
+        intro b; rw [hS7]; exact getAlloc_setAlloc_live g6n _ b
+      rw [concatRun_cons_ok st7]
+      -- 8. drop(b)
+      have g7y : S7.getAlloc y = some { ly with locked := true } := by rw [g7, if_neg hny]; exact g6y
+      obtain ⟨S8, hS8⟩ : ∃ S8, S8 = S7.setAlloc y (some ly) := ⟨_, rfl⟩
+      have st8 : concatStep sz x y (S7, some s.allocs.length) (.unlock .other) = .ok (S8, some s.allocs.length) := by
+        simp only [concatStep, resolve, unlockAt_live g7y, ely, hS8]
+      have g8 : ∀ b, S8.getAlloc b = if y = b then some ly else S7.getAlloc b := by
+        intro b; rw [hS8]; exact getAlloc_setAlloc_live g7y _ b
+      rw [concatRun_cons_ok st8]
+      -- 9. drop(raw)
+      have g8n : S8.getAlloc s.allocs.length = some ln2 := by
+        rw [g8, if_neg (Ne.symm hny), g7, if_pos rfl]
+      obtain ⟨S9, hS9⟩ : ∃ S9, S9 = S8.setAlloc s.allocs.length (some { ln2 with locked := false }) := ⟨_, rfl⟩
+      have st9 : concatStep sz x y (S8, some s.allocs.length) .unlockNew = .ok (S9, some s.allocs.length) := by
+        simp only [concatStep, unlockAt_live g8n, hS9]
+      rw [concatRun_cons_ok st9]
+      right
+      refine ⟨{ ln2 with locked := false }, ?_, ?_, ?_, RawOk_locked ok2 false, rfl, ?_⟩
+      · simp only [concatRun]
+        congr 1
+        congr 1
+        -- the final store, field by field
+        have hslots : S9.slots = s.slots := by
+          rw [hS9, hS8, hS7, hS6, hS5, hS4, hS3, hS2, hS1]; rfl
+        have hlive : S9.live = s.live + lx.len + ly.len := by
+          rw [hS9, hS8, hS7, hS6, hS5, hS4, hS3, hS2, hS1]; rfl
+        have hallocs : S9.allocs = s.allocs ++ [some { ln2 with locked := false }] := by
+          rw [hS9, hS8, hS7, hS6, hS5, hS4, hS3, hS2, hS1]
+          exact concat_allocs s.allocs x y _ _ _ _ _ _ _ _ _ hxn hyn gx gy
+        cases S9
+        simp only at hslots hlive hallocs
+        subst hslots hlive hallocs
+        rfl
+      · show ln2.elems = lx.elems ++ ly.elems
+        rw [y1, x1, e02]; rfl
+      · show ln2.len = lx.len + ly.len
+        rw [y2, x2, e01]; simp
+      · show ln2.rc = 1
+        rw [y4, x4]; exact e04
+
 end ops
 
 end RotoV.ListM
